@@ -224,7 +224,7 @@ def scenario(params, ch):
 # part "threads": the server-side client object is the API game code uses from wherever it runs.  Two real threads -
 # the server thread inside ServerClientConnection.update() (packet build, timeouts, re-queueing) and an application
 # thread inside send_guaranteed()/send() on the SAME object - under every schedule with <= 1 (quick) / 2 preemptions at
-# line granularity (thorough: bytecode granularity for bound 1).  Afterwards the link is perfect: every message is
+# line granularity (CPython 3.12.1 delivers no per-bytecode trace events, so lines are the finest step).  Afterwards the link is perfect: every message is
 # delivered exactly once and every guaranteed callback fires exactly once with True.
 
 def thread_scenario(params, ch):
@@ -448,11 +448,6 @@ def run(tier, seed):
     st_t = explore.explore_all("checks.c05", "thread_scenario", tp, 1 if tier == "quick" else 2, time_budget=(900 if tier == "quick" else 2400))
     thr_cov = {"configurations": len(tp), "schedules": st_t.executions, "by_preemptions": st_t.by_cost, "scheduling_points": st_t.steps, "distinct_outcomes": len(st_t.outcomes),
                "capped": st_t.capped, "granularity": "line"}
-    if tier == "thorough":
-        tp2 = [p[:4] + (True,) for p in tp if p[3] and p[1] in ("guaranteed-40", "guaranteed-2000")]
-        st_o = explore.explore_all("checks.c05", "thread_scenario", tp2, 1, time_budget=1800)
-        thr_cov["bytecode_granularity"] = {"configurations": len(tp2), "schedules": st_o.executions, "scheduling_points": st_o.steps, "capped": st_o.capped}
-        st_t.violations.extend(st_o.violations)
     b3 = None
     sts = [st1, st2, st_t]
     if tier == "thorough":
